@@ -36,9 +36,14 @@ def reset_globals():
 _PRISTINE = {}
 
 
+_CLASSES = []
+
+
 def _library_classes():
     import sys
-    out = []
+    if _CLASSES:
+        return _CLASSES
+    out = _CLASSES
     for name, mod in list(sys.modules.items()):
         if name.startswith("edgegraph.structure.") and mod is not None:
             for obj in vars(mod).values():
